@@ -26,9 +26,9 @@ Proof.
   - destruct (first_code_index seen rest) as [k'|] eqn:E; [|discriminate].
     inversion H; subst k. cbn [firstn first_code_index]. rewrite E1, (IH _ _ E). reflexivity.
   - destruct (is_string_piece s) eqn:E2.
-    + destruct seen eqn:E3; [inversion H; reflexivity|].
+    + destruct (seen || negb (is_str_piece s)) eqn:E3; [inversion H; reflexivity|].
       destruct (first_code_index true rest) as [k'|] eqn:E; [|discriminate].
-      inversion H; subst k. cbn [firstn first_code_index]. rewrite E1, E2, (IH _ _ E). reflexivity.
+      inversion H; subst k. cbn [firstn first_code_index]. rewrite E1, E2, E3, (IH _ _ E). reflexivity.
     + inversion H. reflexivity.
 Qed.
 
@@ -40,7 +40,8 @@ Proof.
 Qed.
 
 (* the text of the maximal leading run of comment / blank / string-literal statements of the
-   first block (comments, blank lines and at most one leading string statement: F9) *)
+   first block (comments, blank lines and at most one leading str-literal statement: F9; a bytes literal
+   statement is never part of it: 226d64c) *)
 Definition is_prologue_text (bs : list block) (pro : str) : Prop :=
   match bs with
   | BOther inp _ :: _ =>
